@@ -343,6 +343,51 @@ Fixpoint canon (sp : bool) (v : pv) {struct v} : herr + pv :=
   end.
 
 (* ---------------------------------------------------------------------------------------- *)
+(* utils.merge(value_list) with merge_fn=None: canonicalize every value, merge them left to right (a None value after the
+   first is skipped), then turn every int-keyed dict into a list (convert_when_sparse=True) *)
+Fixpoint merge_rest (acc : pv) (l : list pv) : herr + pv :=
+  match l with
+  | [] => inr acc
+  | PNone :: r => merge_rest acc r
+  | v :: r =>
+      match canon true v with
+      | inl e => inl e
+      | inr cv => match merge_plain acc cv with inl e => inl e | inr m => merge_rest m r end
+      end
+  end.
+
+Definition merge_all (l : list pv) : herr + pv :=
+  match l with
+  | [] => inr PNone
+  | v :: r =>
+      match canon true v with
+      | inl e => inl e
+      | inr cv => match merge_rest cv r with inl e => inl e | inr m => inr (listify true m) end
+      end
+  end.
+
+(* utils.transform(value, fn) where fn returns MISSING_VALUE for the nodes [drop] selects and the node otherwise:
+   bottom-up; a child that becomes MISSING is deleted from its container; None = MISSING_VALUE *)
+Fixpoint xform (drop : list key -> pv -> bool) (v : pv) (path : list key) {struct v} : option pv :=
+  let nv :=
+    match v with
+    | PDict kvs =>
+        PDict ((fix go (l : list (key * pv)) : list (key * pv) :=
+                  match l with
+                  | [] => []
+                  | (k, c) :: r => match xform drop c (path ++ [k]) with Some c' => (k, c') :: go r | None => go r end
+                  end) kvs)
+    | PList l =>
+        PList ((fix go (l : list pv) (i : Z) : list pv :=
+                  match l with
+                  | [] => []
+                  | c :: r => match xform drop c (path ++ [KInt i]) with Some c' => c' :: go r (i + 1) | None => go r (i + 1) end
+                  end) l 0)
+    | _ => v
+    end in
+  if drop path nv then None else Some nv.
+
+(* ---------------------------------------------------------------------------------------- *)
 (* wire format
    value ::= (0) | (1 z) | (2 (cp ...)) | (3 (value ...)) | (4 ((key value) ...))
    case  ::= (20 path value)                         -> (0 value) | (1 e)       KeyPath.query; e: 0 Key 1 Value 2 Index 3 Type
@@ -354,6 +399,8 @@ Fixpoint canon (sp : bool) (v : pv) {struct v} : herr + pv :=
            | (26 fck sp value)                        -> (0 value) | (1 e)       canonicalize(flatten(value))
            | (27 mode dest src)                       -> (0 value) | (1 e)       merge_tree (mode 0: merge_fn=None)
            | (28 path value)                          -> (0 b) | (1 e)           KeyPath.exists (only KeyError means absent)
+           | (29 (value ...))                         -> (0 value) | (1 e)       utils.merge(values)
+           | (30 value root sel)                      -> (0 value) | (5)         utils.transform; fn = MISSING_VALUE where sel holds
    ev    ::= (0 path value) | (1 path value)      (pre / post)
    sel   ::= (0 (path ...)) | (1) ints | (2) non-empty containers | (3) everything | (4) leaves *)
 Fixpoint e_pv (v : pv) : tr :=
@@ -453,6 +500,14 @@ Definition run (c : tr) : tr :=
   | L [I 26; f; s; v] =>
       match dbool f, dbool s, d_pv FUEL v with
       | Some bf, Some bs, Some x => e_res (canon bs (flatten bf x))
+      | _, _, _ => ebad
+      end
+  | L [I 29; L vs] =>
+      match dall (d_pv FUEL) vs with Some l => e_res (merge_all l) | None => ebad end
+  | L [I 30; v; root; spec] =>
+      match d_pv FUEL v, dpath root, d_sel spec with
+      | Some x, Some rp, Some sl =>
+          match xform (sel_fn sl) x rp with Some y => L [I 0; e_pv y] | None => L [I 5] end
       | _, _, _ => ebad
       end
   | L [I 28; p; v] =>
